@@ -89,5 +89,10 @@ func init() {
 	Props["C20"] = chainProp(45, 900, base+"distinct case = committed population shape (nodes, apps, jailed, unstaking)")
 	Props["C21"] = chainProp(45, 900, base+"index entries are parsed from raw keys (0x23|power|^addr, 0x22|chain|addr, 0x41|time) and compared both ways with the records; distinct case = committed population shape")
 	Props["C22"] = chainProp(45, 900, base+"the driver applies every reported update cumulatively; distinct case = (updates in block, set size, eligible nodes)")
+	Props["C23"] = chainProp(45, 900, base+"edit-stake matrix: amount {same,+1,+1M,-1}, output address kept/changed, delegators, signed by operator or output address, staggered OEDIT/RewardDelegators activation; distinct case = (stake bumped, output changed, delegators changed)")
+	Props["C24"] = chainProp(45, 900, base+"begin-unstake requests, forced unstakes, time gaps from 1 s to 30 days around completion times; EndBlock diffs must contain exactly the due payouts; distinct case = payouts per block and delivered tx outcomes")
+	Props["C25"] = chainProp(45, 900, base+"absent votes over the signing window, double-sign evidence, unjail attempts by operator/output/strangers before and after the jail end; distinct case = committed population shape")
+	Props["C26"] = chainProp(45, 900, base+"BeginBlock diffs: collected fees leave the fee collector to the DAO and the proposer side with sum zero and the DAO share matching the exact rational split; (relay-reward split is checked where proofs are accepted); distinct case = (dao%, proposer%, recipients)")
+	Props["C28"] = chainProp(45, 900, base+"application stakes around minimum stake, chain limit, funds and the max-applications boundary; transfers to fresh keys; distinct case = (new|edit) and transfer outcomes")
 	Props["C36"] = chainProp(45, 900, base+"parameter changes, upgrades and DAO transfers/burns by the owner and by other keys, amounts around the DAO balance; distinct case = (tx kind, encoding, outcome)")
 }
